@@ -192,7 +192,7 @@ func TestC20E2(t *testing.T) {
 	env := run.GetEnv()
 	p := world.GetPKI(t)
 	bound := 2
-	maxExec := 4000
+	maxExec := 6000
 	if env.Thorough() {
 		bound, maxExec = 3, 60000
 	}
@@ -207,6 +207,9 @@ func TestC20E2(t *testing.T) {
 			bound := bound
 			if !env.Thorough() && len(ops) >= 2 {
 				bound = 1 // both endpoints are scheduled: 2 preemptions do not finish within the quick budget
+				if ops == "Kaq" {
+					bound = 0 // >12000 schedules with one preemption: the quick tier enumerates its non-preemptive schedules only
+				}
 			}
 			cases = append(cases, run.Case{ID: fmt.Sprintf("e2/13/%s/%s/b%d", ops, side, bound), Run: func(t *testing.T) run.Outcome {
 				res := Explore(bound, maxExec, c20Scenario(t, p, ops, clientSide, env.Seed+1))
